@@ -183,10 +183,54 @@ Section Sparse.
     | None :: _ => None
     | Some x :: r => match all_some r with Some r' => Some (x :: r') | None => None end
     end.
-  Definition align_nnz (size : Z) (Ms : list (smatrix T)) : option (list (smatrix T)) :=
+  (* femio's algorithm BEFORE /repo 0213dd3 (kept for the record; see notes) *)
+  Definition align_nnz_by_dummy (size : Z) (Ms : list (smatrix T)) : option (list (smatrix T)) :=
     let D := dummy_scale size Ms in
     let dummy := dummy_csr D Ms in
     all_some (map (fun A => reduce (sadd A dummy) dummy) Ms).
+
+  (* ---- align_nnz as of /repo 0213dd3: values PLACED on the union pattern ----
+     An input matrix is the list of its stored (flat key, value) pairs in
+     STORAGE order: any order, duplicated keys allowed (non-canonical CSR). *)
+  (* the sum of everything stored under key k (= sget for distinct keys) *)
+  Fixpoint ssum (A : smatrix T) (k : Z) : T :=
+    match A with
+    | [] => zero O
+    | (k', v) :: r => if Z.eqb k k' then add O v (ssum r k) else ssum r k
+    end.
+  (* union_csr after sort_indices(): only its pattern is used by the code; the
+     sums of ones are >= 1, so scipy's dropping of zero sums never fires and
+     the pattern is the ascending union of the stored keys *)
+  Definition union_pattern (Ms : list (smatrix T)) : list Z :=
+    fold_left (fun acc A => kunion (skeys A) acc) Ms [].
+  (* np.searchsorted(keys, k) (side='left') on ascending keys *)
+  Fixpoint searchsorted (k : Z) (keys : list Z) : nat :=
+    match keys with
+    | [] => 0%nat
+    | x :: r => if Z.ltb x k then S (searchsorted k r) else 0%nat
+    end.
+  (* data[i] = f data[i]; an index past the end is an IndexError *)
+  Fixpoint upd (d : list T) (i : nat) (f : T -> T) : option (list T) :=
+    match d, i with
+    | [], _ => None
+    | x :: r, 0%nat => Some (f x :: r)
+    | x :: r, S j => match upd r j f with Some r' => Some (x :: r') | None => None end
+    end.
+  (* np.add.at(data, idx, vals): unbuffered, repeated indices accumulate *)
+  Definition add_at (d : list T) (ivs : list (nat * T)) : option (list T) :=
+    fold_left (fun acc iv => match acc with
+                             | Some d' => upd d' (fst iv) (fun x => add O x (snd iv))
+                             | None => None
+                             end) ivs (Some d).
+  Definition place (keys : list Z) (A : smatrix T) : option (smatrix T) :=
+    match add_at (zeros O (length keys))
+                 (map (fun kv => (searchsorted (fst kv) keys, snd kv)) A) with
+    | Some d => Some (combine keys d)
+    | None => None
+    end.
+  Definition align_nnz (Ms : list (smatrix T)) : option (list (smatrix T)) :=
+    let keys := union_pattern Ms in
+    all_some (map (place keys) Ms).
 End Sparse.
 
 Definition smat_eq (A B : smatrix Q) : bool :=
